@@ -46,13 +46,13 @@ REAL_VS_STUB = {
              'CPython containers and allocator (malloc under ASan)'],
     'stub_or_simulator_owned': ['all user callbacks', 'which container is mutated how at which callback', 'GC timing'],
 }
-EXPECTED_PROBES = ('mut:delete_front', 'mut:delete_back', 'mut:clear', 'mut:append', 'mut:replace', 're:iter_next',
+EXPECTED_PROBES = ('mut:rotate', 'index-sweep', 'leafcount-sweep', 'mut:delete_front', 'mut:delete_back', 'mut:clear', 'mut:append', 'mut:replace', 're:iter_next',
                    're:flatten', 're:unflatten', 're:register', 're:gc', 'outcome:exception', 'outcome:consistent')
 
 TRAVERSALS = ('flatten', 'flatten_with_path', 'iter', 'flatten_up_to', 'map', 'map_with_path', 'broadcast_prefix',
               'broadcast_common', 'prefix_errors', 'from_collection', 'leaves', 'structure', 'is_prefix_after', 'unflatten',
               'walk', 'all_leaves', 'transpose_map', 'one_level')
-MUTATIONS = ('delete_front', 'delete_back', 'clear', 'append', 'replace')
+MUTATIONS = ('delete_front', 'delete_back', 'clear', 'append', 'replace', 'rotate')
 REENTRIES = ('iter_next', 'flatten', 'unflatten', 'register', 'gc')
 
 
@@ -259,6 +259,16 @@ def mutate(target, how, ctx_leaf):
                 if not keys:
                     return False
                 target[keys[0]] = [ctx_leaf, {'q': ctx_leaf}]
+            elif how == 'rotate':
+                if len(keys) < 2:
+                    return False
+                if isinstance(target, OrderedDict):
+                    target.move_to_end(keys[0])
+                    target.popitem()
+                else:
+                    v = target.pop(keys[0])
+                    target[keys[0]] = v
+                    del target[keys[1]]
             return True
         if isinstance(target, (list, deque)):
             if how == 'delete_front':
@@ -280,6 +290,15 @@ def mutate(target, how, ctx_leaf):
                 if not target:
                     return False
                 target[0] = [ctx_leaf, {'q': ctx_leaf}]
+            elif how == 'rotate':
+                if len(target) < 2:
+                    return False
+                if isinstance(target, deque):
+                    target.rotate(1)
+                    target.pop()
+                else:
+                    target.reverse()
+                    target.pop()
             return True
     except (TypeError, RuntimeError, KeyError, IndexError):
         return False
@@ -585,18 +604,18 @@ def arg_pool(t):
     spec2 = optree.tree_structure([1, None, U.NT1(1, 2)], none_is_leaf=True)
     leafspec = optree.treespec_leaf()
     it = optree.tree_iter([1, [2, 3]])
-    pool = [None, 0, -1, 1, 2 ** 62, -2 ** 63, 3.5, 'x', '', b'y', (), [], {}, set(), [1, 2], (1, (2, 3)), {'a': 1}, spec, spec2,
+    pool = [None, 0, -1, 1, 3, -2, -3, -4, 4, 2 ** 62, -2 ** 63, 3.5, 'x', '', b'y', (), [], {}, set(), [1, 2], (1, (2, 3)), {'a': 1}, spec, spec2,
             leafspec, it, iter([1, 2]), object(), int, list, type(None), U.NT1, U.NT1(1, 2), lambda *a, **k: None, len,
             deque([1]), OrderedDict(a=1), defaultdict(list), True, ..., NotImplemented, [spec, spec2], (spec, leafspec),
             {'k': spec}, U.Key(1), U.Leaf(1), range(3), 'namespace', float('nan'), [None], (None,), {'a': None}]
-    return pool
+    return pool, (spec, spec2, leafspec), it
 
 
 def run_confusion(job, io):
     tape = Tape(replay=job['tape']) if 'tape' in job else Tape(seed=derive_seed(job.get('seed', 0), PROPERTY, 'cf', job['i']))
     violations, keys, probes = [], set(), collections.Counter()
-    pool = arg_pool(tape)
-    spec = pool[17]
+    pool, pool_specs, pool_it = arg_pool(tape)
+    spec = pool_specs[0]
     fns = []
     for name in sorted(dir(_C)):
         obj = getattr(_C, name)
@@ -609,6 +628,50 @@ def run_confusion(job, io):
         fns.append(('PyTreeSpec.' + name, ('method', name)))
     fns.append(('PyTreeIter', _C.PyTreeIter))
     fns.append(('PyTreeIter.__next__', ('iter', '__next__')))
+    # ---- deterministic sub-sweeps with a functional oracle: child / entry indices and unflatten leaf counts
+    ctx = gen.swarm_ctx(tape)
+    for _ in range(3):
+        tree = gen.gen_tree(tape, 2 + tape.draw(14, 'sweep-budget'), ctx)
+        sp = optree.tree_structure(tree, none_is_leaf=bool(tape.draw(2, 'sweep-nil')))
+        n = sp.num_children
+        ch = sp.children()
+        ents = sp.entries()
+        for i in range(-n - 3, n + 4):
+            io.progress({'site': 'confusion:child-index', 'tape': tape.values})
+            probes['index-sweep'] += 1
+            for nm, ref in (('child', ch), ('entry', ents)):
+                try:
+                    got = getattr(sp, nm)(i)
+                    ok = -n <= i < n and (got == ref[i])
+                    if not ok:
+                        violations.append({'cls': 'index-accepted', 'site': 'confusion:%s-index' % nm,
+                                           'msg': '%s(%d) on a treespec with %d children returned %r (valid indices are %d..%d and must equal %ss()[i])' % (nm, i, n, got, -n, n - 1, nm)})
+                except IndexError:
+                    if -n <= i < n:
+                        violations.append({'cls': 'index-rejected', 'site': 'confusion:%s-index' % nm, 'msg': '%s(%d) raised IndexError for %d children' % (nm, i, n)})
+                keys.add('cf|%s-index|%s' % (nm, 'in' if -n <= i < n else 'out'))
+        nl = sp.num_leaves
+        for k in list(range(0, nl + 3)) + [nl * 2 + 5]:
+            io.progress({'site': 'confusion:leaf-count', 'tape': tape.values})
+            probes['leafcount-sweep'] += 1
+            for how in ('unflatten', 'walk', 'traverse', 'tree_unflatten_iter'):
+                try:
+                    lv = [U.Leaf(i) for i in range(k)]
+                    if how == 'unflatten':
+                        sp.unflatten(lv)
+                    elif how == 'walk':
+                        sp.walk(lv)
+                    elif how == 'traverse':
+                        sp.traverse(lv)
+                    else:
+                        optree.tree_unflatten(sp, iter(lv))
+                    if k != nl:
+                        violations.append({'cls': 'leafcount-accepted', 'site': 'confusion:%s-leafcount' % how, 'msg': '%s accepted %d leaves for a treespec with %d' % (how, k, nl)})
+                except ValueError:
+                    if k == nl:
+                        violations.append({'cls': 'leafcount-rejected', 'site': 'confusion:%s-leafcount' % how, 'msg': '%s rejected the exact number of leaves %d' % (how, nl)})
+            keys.add('cf|leafcount|%s' % ('exact' if k == nl else 'fewer' if k < nl else 'more'))
+    del violations[6:]
     registered = []
     n_calls = 60 + tape.draw(60, 'n-calls')
     for _ in range(n_calls):
@@ -622,7 +685,7 @@ def run_confusion(job, io):
         io.progress({'site': 'confusion:%s' % fname, 'tape': tape.values})
         try:
             if isinstance(fobj, tuple) and fobj[0] == 'method':
-                target = tape.choice((pool[17], pool[18], pool[19]), 'self')
+                target = tape.choice(pool_specs, 'self')
                 if fobj[1] == '__setstate__' or fobj[1] == '__init__':
                     target = pickle.loads(pickle.dumps(target))  # never corrupt a spec others still use
                 if fobj[1] in ('num_leaves', 'num_nodes', 'num_children', 'none_is_leaf', 'namespace', 'type', 'kind'):
@@ -633,7 +696,7 @@ def run_confusion(job, io):
                         # whatever state was accepted must still behave
                         repr(target), hash(target), target.paths(), target.unflatten([0] * target.num_leaves)
             elif isinstance(fobj, tuple) and fobj[0] == 'iter':
-                next(pool[20])
+                next(pool_it)
             else:
                 res = fobj(*args, **kwargs)
                 if fname == '_C.register_node':
